@@ -18,22 +18,24 @@ import (
 
 // Job is what the driver hands to a worker process (env SIM_JOB = path).
 type Job struct {
-	Mode      string `json:"mode"` // run | replay | logdump
-	Property  string `json:"property"`
-	Tier      string `json:"tier"`
-	Seed      uint64 `json:"seed"`
-	Worker    int    `json:"worker"`
-	Workers   int    `json:"workers"`
-	BudgetS   int    `json:"budget_s"`
-	Out       string `json:"out"`
-	ReplayDir string `json:"replay_dir"`
-	File      string `json:"file"`      // replay mode
-	From, To  int    `json:"-"`         // unused
-	MaxRuns   int    `json:"max_runs"`  // cap on runs for this worker (0 = none)
-	LogDir    string `json:"log_dir"`   // logdump mode: write full event logs per run
-	NoShrink  bool   `json:"no_shrink"` // skip shrinking
-	ShrinkS   int    `json:"shrink_s"`
-	Only      []int  `json:"only"` // run exactly these indices (debugging)
+	Mode      string   `json:"mode"` // run | replay | logdump
+	Property  string   `json:"property"`
+	Tier      string   `json:"tier"`
+	Seed      uint64   `json:"seed"`
+	Worker    int      `json:"worker"`
+	Workers   int      `json:"workers"`
+	BudgetS   int      `json:"budget_s"`
+	Out       string   `json:"out"`
+	ReplayDir string   `json:"replay_dir"`
+	File      string   `json:"file"`      // replay mode
+	From, To  int      `json:"-"`         // unused
+	MaxRuns   int      `json:"max_runs"`  // cap on runs for this worker (0 = none)
+	LogDir    string   `json:"log_dir"`   // logdump mode: write full event logs per run
+	NoShrink  bool     `json:"no_shrink"` // skip shrinking
+	ShrinkS   int      `json:"shrink_s"`
+	Only      []int    `json:"only"`     // run exactly these indices (debugging)
+	Known     []string `json:"known"`    // signature globs of listed known findings
+	HashOut   string   `json:"hash_out"` // selftest: write "idx tracehash schedhash violation" per run
 }
 
 // WorkerOut is the aggregate a worker writes.
@@ -156,6 +158,27 @@ func execute(t *testing.T, sc *Scenario, tier string, params any, ch *Chooser, s
 	return res
 }
 
+// globMatch matches s against a pattern in which '*' stands for any run of characters.
+func globMatch(pat, s string) bool {
+	parts := strings.Split(pat, "*")
+	if len(parts) == 1 {
+		return pat == s
+	}
+	if !strings.HasPrefix(s, parts[0]) {
+		return false
+	}
+	s = s[len(parts[0]):]
+	for i := 1; i < len(parts)-1; i++ {
+		j := strings.Index(s, parts[i])
+		if j < 0 {
+			return false
+		}
+		s = s[j+len(parts[i]):]
+	}
+
+	return strings.HasSuffix(s, parts[len(parts)-1])
+}
+
 func firstLine(s string) string {
 	if i := strings.IndexByte(s, '\n'); i >= 0 {
 		return s[:i]
@@ -226,7 +249,7 @@ func faultKeys(dec map[string]Dec) []string {
 			if v.A != 0 {
 				ks = append(ks, k)
 			}
-		case strings.HasPrefix(k, "lat/"):
+		case strings.HasPrefix(k, "lat/"), strings.HasPrefix(k, "start/"):
 		default:
 			if !v.IsZero() {
 				ks = append(ks, k)
@@ -381,6 +404,7 @@ func runWorker(t *testing.T, job *Job) {
 	seenS := map[uint64]bool{}
 	sigSeen := map[string]int{}
 	out.EnumDone = true
+	var hashLines []string
 	var indices []int
 	if len(job.Only) > 0 {
 		for i, x := range job.Only {
@@ -448,6 +472,9 @@ func runWorker(t *testing.T, job *Job) {
 			seenS[res.SchedHash] = true
 			out.SchedHashes = append(out.SchedHashes, res.SchedHash)
 		}
+		if job.HashOut != "" {
+			hashLines = append(hashLines, fmt.Sprintf("%d %016x %016x %s", idx, res.TraceHash, res.SchedHash, res.Signature))
+		}
 		if job.LogDir != "" {
 			_ = os.MkdirAll(job.LogDir, 0o755)
 			_ = os.WriteFile(fmt.Sprintf("%s/%s-%06d.log", job.LogDir, job.Property, idx),
@@ -463,7 +490,13 @@ func runWorker(t *testing.T, job *Job) {
 		}
 		if res.Violation != "" {
 			sigSeen[res.Signature]++
-			if sigSeen[res.Signature] > 3 {
+			isKnown := false
+			for _, pat := range job.Known {
+				if globMatch(pat, res.Signature) {
+					isKnown = true
+				}
+			}
+			if sigSeen[res.Signature] > 2 || isKnown {
 				// same class already reported three times by this worker: count only
 				out.Violations = append(out.Violations, ViolationRec{Index: idx, Seed: seed, Signature: res.Signature, Message: res.Violation})
 
@@ -476,6 +509,9 @@ func runWorker(t *testing.T, job *Job) {
 		}
 	}
 	out.WallS = time.Since(start).Seconds()
+	if job.HashOut != "" {
+		_ = os.WriteFile(job.HashOut, []byte(strings.Join(hashLines, "\n")+"\n"), 0o644)
+	}
 	b, _ := json.Marshal(out)
 	if err := os.WriteFile(job.Out, b, 0o644); err != nil {
 		t.Fatal(err)
